@@ -31,21 +31,28 @@ pub enum ChildOutcome {
 }
 
 pub struct LogInfo {
+    /// the child was inside a C18 control run (no fault injected) when the log ends
+    pub in_control: bool,
     pub cfg: Option<Cfg>,
     pub steps: Vec<Step>,
     pub last_call: Option<(usize, String, String, bool)>,
 }
 
 pub fn read_log(path: &str) -> LogInfo {
-    let mut info = LogInfo { cfg: None, steps: Vec::new(), last_call: None };
+    let mut info = LogInfo { in_control: false, cfg: None, steps: Vec::new(), last_call: None };
+    let mut control_pending = false;
     let s = std::fs::read_to_string(path).unwrap_or_default();
     for line in s.lines() {
-        if let Some(rest) = line.strip_prefix("cfg ") {
+        if line == "control-run" {
+            control_pending = true;
+        } else if let Some(rest) = line.strip_prefix("cfg ") {
             if let Ok(j) = json::parse(rest) {
                 info.cfg = Cfg::from_json(&j).ok();
             }
             info.steps.clear();
             info.last_call = None;
+            info.in_control = control_pending;
+            control_pending = false;
         } else if let Some(rest) = line.strip_prefix("step ") {
             if let Some(pos) = rest.find(' ') {
                 if let Ok(st) = Step::parse(&rest[pos + 1..]) {
@@ -177,6 +184,9 @@ pub fn classify_child(code: Option<i32>, signal: Option<i32>, stdout: &str, stde
         None => return ChildOutcome::HarnessError(format!("child died (code {:?}, signal {:?}) before any call into iTree: {}", code, signal, stderr_tail)),
     };
     let opkind = info.steps.last().map(|s| s.op.kind()).unwrap_or("?");
+    if info.in_control {
+        return ChildOutcome::Inconclusive(format!("{}::{} died ({}) in a control run without any injected fault", coll, callname, class));
+    }
     if !owned {
         return ChildOutcome::Inconclusive(format!("{}::{} died ({}), not observed by this property", coll, callname, class));
     }
@@ -206,6 +216,11 @@ static CAND_SEQ: std::sync::atomic::AtomicU64 = std::sync::atomic::AtomicU64::ne
 
 /// Execute a trace in a fresh child process (trace mode) and classify the result.
 pub fn exec_trace_in_child(trace: &Trace, limit: Duration) -> ChildOutcome {
+    exec_trace_in_child_wd(trace, limit, 40)
+}
+
+/// As above with an explicit per-operation watchdog (seconds) in the child.
+pub fn exec_trace_in_child_wd(trace: &Trace, limit: Duration, watchdog_s: u32) -> ChildOutcome {
     let n = CAND_SEQ.fetch_add(1, std::sync::atomic::Ordering::Relaxed);
     let base = format!("{}/cand-{}-{}", work_dir(), std::process::id(), n);
     let file = format!("{}.json", base);
@@ -213,7 +228,7 @@ pub fn exec_trace_in_child(trace: &Trace, limit: Duration) -> ChildOutcome {
     if let Err(e) = std::fs::write(&file, trace.to_json().to_string()) {
         return ChildOutcome::HarnessError(format!("cannot write {}: {}", file, e));
     }
-    let r = run_child(&["exec".into(), "--file".into(), file.clone(), "--log".into(), log.clone()], limit);
+    let r = run_child(&["exec".into(), "--file".into(), file.clone(), "--log".into(), log.clone(), "--watchdog".into(), watchdog_s.to_string()], limit);
     let out = match r {
         Ok((code, sig, stdout, errtail, timed_out)) => classify_child(code, sig, &stdout, &errtail, timed_out, &log),
         Err(e) => ChildOutcome::HarnessError(e),
